@@ -155,22 +155,32 @@ def ident_history(
         return True
     n = len(g.nodes)
     hs = [h0, h1, h2, h3, h4, h5][: SHARD["k"]]
-    for h in hs:
-        # unsealing a submitted task is internal API misuse (its identifier is
-        # fixed at submission): only offered on task-free graphs
-        op = pick(h, 3 * n + (0 if g.extra.get("tasks") else 1))
-        if op < n:
-            g.nodes[op].__xpm__.raw_identifier
-            rt.note("raw", op)
-        elif op < 2 * n:
-            g.nodes[op - n].__xpm__.full_identifier
-            rt.note("full", op - n)
-        elif op < 3 * n:
-            g.nodes[op - 2 * n].__xpm__.seal(_context())
-            rt.note("seal", op - 2 * n)
+    # operations: [raw(j)] full(j) seal(j) [unseal root]; unsealing a submitted
+    # task is internal API misuse (its identifier is fixed at submission):
+    # only offered on task-free graphs
+    with_raw = SHARD.get("ops", "all") == "all"
+    kinds = (["raw"] if with_raw else []) + ["full", "seal"]
+    nops = len(kinds) * n + (0 if g.extra.get("tasks") else 1)
+    first = SHARD.get("h0")
+    for ix, h in enumerate(hs):
+        if ix == 0 and first is not None:
+            if first >= nops:
+                return True
+            op = first  # first operation enumerated by the shard
         else:
+            op = pick(h, nops)
+        if op >= len(kinds) * n:
             g.root.__xpm__.__unseal__()
             rt.note("unseal root")
+            continue
+        kind, j = kinds[op // n], op % n
+        if kind == "raw":
+            g.nodes[j].__xpm__.raw_identifier
+        elif kind == "full":
+            g.nodes[j].__xpm__.full_identifier
+        else:
+            g.nodes[j].__xpm__.seal(_context())
+        rt.note(kind, j)
     ok = check_nodes(g, _hasher())
     if rt.concrete() and g.extra.get("tasks"):
         # job directory = type id / hex(full identifier)
@@ -246,6 +256,9 @@ def golden() -> bool:
     return fin(ok)
 
 
+NODES = {"flat": 1, "pair": 1, "floats": 1, "nested": 3, "shared": 4, "deep": 3, "list": 3, "dict": 3, "nestedlists": 1, "cyc2": 2, "cyc3": 3, "taskself": 2, "taskout": 4, "tasklist": 3, "pretask": 4}
+
+
 def conditions(tier):
     conds = []
     caching = ("shared", "cyc2", "cyc3", "taskself", "taskout", "tasklist", "pretask")
@@ -256,14 +269,20 @@ def conditions(tier):
             lens_list = [[]]
         for lens in lens_list:
             nm = f"data/{sk}" + ("-" + "".join(map(str, lens)) if lens else "")
-            conds.append({"name": nm, "func": "ident_history", "shard": {"sk": sk, "k": 0, "lens": lens, "data": "symbolic"}, "timeout": 300 if tier == "quick" else 1200})
-        # (b) histories: symbolic operation sequence, concrete leaves
+            conds.append({"name": nm, "func": "ident_history", "shard": {"sk": sk, "k": 0, "lens": lens, "data": "symbolic", "small_ints": 1}, "timeout": 300 if tier == "quick" else 1200})
+        # (b) histories: symbolic operation sequence (first operation
+        # enumerated by the shard), concrete leaves
+        ops = "full" if tier == "quick" else "all"
         if tier == "quick":
             k = 3 if sk in caching else 2
         else:
             k = 4 if sk in caching else 3
-        for fs in ([0] * 8, [1] * 8):
-            nm = f"history/{sk}/k{k}sel{fs[0]}"
-            conds.append({"name": nm, "func": "ident_history", "shard": {"sk": sk, "k": k, "lens": [1] * nstr, "fixed_sels": fs, "data": "concrete"}, "timeout": 400 if tier == "quick" else 2400})
+        n = NODES[sk]
+        nops = (2 if ops == "full" else 3) * n + (0 if sk in ("taskself", "taskout", "tasklist") else 1)
+        firsts = list(range(nops)) if (sk in caching and n >= 3) else [None]
+        for fs in ([0] * 8, [1] * 8) if tier == "thorough" or sk not in caching else ([1] * 8,):
+            for h0 in firsts:
+                nm = f"history/{sk}/k{k}sel{fs[0]}" + (f"first{h0}" if h0 is not None else "")
+                conds.append({"name": nm, "func": "ident_history", "shard": {"sk": sk, "k": k, "lens": [1] * nstr, "fixed_sels": fs, "data": "concrete", "ops": ops, "h0": h0}, "timeout": 400 if tier == "quick" else 2400})
     conds.append({"name": "golden", "func": "golden", "shard": {"real_hash": 1}, "timeout": 300})
     return conds
